@@ -1,7 +1,7 @@
 """C07 - cluster reads only expose the quorum-confirmed prefix (DESIGN 5, R7.1-R7.3)."""
 from ..facts import Program, Inconclusive, op_place
 from ..flow import Ev, walk, resolve_upvars, show, strip
-from ..gate import Classifier, find_gates, switch_on, edge_dominates, linear, y_offset
+from ..gate import Classifier, find_gates, switch_on, edge_dominates, linear, y_offset, implied_true_edges
 from .. import quorum
 
 WM_GET = "sierradb_cluster::confirmation::AtomicWatermark::get"
@@ -35,15 +35,18 @@ def gated(prog, cls, body, accept_block, ev=None, need=-1):
     ok = False
     for g in find_gates(prog, body, cls, ev):
         sw = switch_on(body, g.block, g.lhs["l"])
-        if sw is None:
+        implied = implied_true_edges(body, g.block, g.lhs["l"])
+        if sw is None and not implied:
             seen.append("%s (value, L%d)" % (g.describe(), g.line))
             continue
-        tr, fa = sw
-        for truth, dst in ((True, tr), (False, fa)):
+        cands = [(True, e[0], e[1]) for e in implied]
+        if sw is not None:
+            cands.append((False, g.block, sw[1]))
+        for truth, src, dst in cands:
             m = g.bound_on(truth)
             if m is None:
                 continue
-            dom = edge_dominates(body, g.block, dst, accept_block)
+            dom = edge_dominates(body, src, dst, accept_block)
             seen.append("%s on %s edge gives X <= W%+d%s (L%d)" % (g.describe(), truth, m, " [dominates]" if dom else "", g.line))
             if dom and m <= need:
                 ok = True
@@ -242,8 +245,66 @@ def run(chk, facts_dir, tier):
                     chk.ok("R7.2", "GetStreamVersion: then_some(version) under %s" % desc, b.where(t["line"]))
                 else:
                     chk.fail("R7.2", root, "then_some/watermark", "stream version is revealed under `%s`, which is not `partition_sequence < watermark`" % desc, b, t["line"])
+    # other shapes of the same exposure: `.find(|e| gate(e)).map(|e| e.stream_version)`, `.filter(gate).map(..)`, and a plain `Some(e.stream_version)` under an if
+    def _reads_version(term):
+        return any(isinstance(x, tuple) and x and x[0] == "field" and x[2] == "stream_version" and "EventRecord" in str(x[3]) for x in walk(term))
+
+    def _closure_gate_ok(cterm):
+        """closure `|e| X(e) < W`: true means X <= W-1"""
+        from ..gate import Gate, SWAP
+        cterm = strip(cterm)
+        if cterm[0] == "bin" and cterm[1] in ("Lt", "Le", "Gt", "Ge"):
+            a, c = cterm[2], cterm[3]
+            if cls.has_x(a) and cls.has_y(c):
+                g = Gate(None, 0, cterm[1], a, c, linear(a)[1], y_offset(cls, c), 0)
+            elif cls.has_x(c) and cls.has_y(a):
+                g = Gate(None, 0, SWAP[cterm[1]], c, a, linear(c)[1], y_offset(cls, a), 0)
+            else:
+                return None, show(cterm)
+            m = g.bound_on(True)
+            return (m is not None and m <= -1), "%s => X <= W%s" % (show(cterm)[:80], ("%+d" % m) if m is not None else "?")
+        if cterm[0] == "call" and cterm[1] == CAN_READ:
+            return cls.has_x(cterm[2][1]) if len(cterm[2]) > 1 else None, "can_read(..)"
+        return None, show(cterm)[:80]
+
+    for b in prog.family(root):
+        ev = Ev(prog, b)
+        for bi, t in b.calls():
+            c = b.callee_decl(t) or ""
+            last = c.rsplit("::", 1)[-1]
+            if last in ("map", "and_then", "filter_map") and len(t["args"]) == 2:
+                f = strip(ev.operand(t["args"][1], (bi, "T")))
+                if not (f[0] == "agg" and str(f[1]).startswith("closure:")):
+                    continue
+                ret = cls.closure_return(f[1].split(":", 1)[1])
+                if not _reads_version(ret) or any(isinstance(x, tuple) and x and x[0] == "call" and "then_some" in x[1] for x in walk(ret)):
+                    continue
+                n += 1
+                recv = resolve_upvars(prog, ev.operand(t["args"][0], (bi, "T")), b)
+                verdicts = []
+                for x in walk(recv):
+                    if isinstance(x, tuple) and x and x[0] == "call" and x[1].rsplit("::", 1)[-1] in ("find", "filter", "take_while", "rfind") and len(x[2]) == 2:
+                        g = strip(x[2][1])
+                        if g[0] == "agg" and str(g[1]).startswith("closure:"):
+                            verdicts.append(_closure_gate_ok(resolve_upvars(prog, cls.closure_return(g[1].split(":", 1)[1]), prog.bodies[g[1].split(":", 1)[1]])))
+                n_gates += len(verdicts)
+                if any(v[0] for v in verdicts):
+                    chk.ok("R7.2", "GetStreamVersion: version taken from an event selected by %s" % [v[1] for v in verdicts if v[0]][0], b.where(t["line"]))
+                else:
+                    chk.fail("R7.2", root, "map-version/watermark", "a stream version is taken from an event that was not selected by `partition_sequence < watermark` (selectors seen: %s)" %
+                             [v[1] for v in verdicts], b, t["line"])
+        for i, j, st in b.assigns():
+            rv = st["rv"]
+            if rv["k"] == "agg" and rv["ak"].endswith("Option::Some") and _reads_version(ev.operand(rv["ops"][0], (i, j))) and b.kind != "Closure":
+                n += 1
+                okg, seen = gated(prog, cls, b, i, ev)
+                n_gates += len(seen)
+                if okg:
+                    chk.ok("R7.2", "GetStreamVersion: Some(version) under a watermark gate", b.where(st["line"]))
+                else:
+                    chk.fail("R7.2", root, "some-version/watermark", "Some(stream_version) is built without a dominating `partition_sequence < watermark` (gates seen: %s)" % seen, b, st["line"])
     if n == 0:
-        raise Inconclusive("GetStreamVersion: no then_some(event.stream_version) site found")
+        raise Inconclusive("GetStreamVersion: no site that reveals an event's stream version was recognised (then_some / find+map / Some under if)")
 
     # ---- GetPartitionSequence: reply(Ok(watermark.get().checked_sub(1)))
     root = MSG % "GetPartitionSequence"
